@@ -32,17 +32,49 @@ func ackReplayKeys(h *harness) {
 	var obs []cryptomesh.ReplayObs
 	if p := vh.Recover(func() {
 		obs = append(obs, m.ReplayUDP())
-		for _, k := range []string{"tcp", "domain", "forward"} {
+		kinds := []string{"tcp", "domain", "forward"}
+		if m.TCPEcho6 != nil {
+			kinds = append(kinds, "forward6") // exit-side socket bound to ::1: the ACK carries a 16-byte bound address
+		} else {
+			c.Note("no IPv6 loopback: the forward tunnel with an IPv6-bound exit socket is covered by the ACK writer round trip only")
+		}
+		for _, k := range kinds {
 			obs = append(obs, m.ReplayStream(k))
 		}
 	}); p != "" {
 		c.Fail("panic", "ack-replay scenario panicked: "+p, replay{Part: "ack-replay"})
 		return
 	}
+	ackWriters(h, m)
+	for _, path := range []string{"ws", "socks5"} {
+		var io cryptomesh.ICMPObs
+		rp := replay{Part: "ack-replay", Kind: "icmp-" + path}
+		if p := vh.Recover(func() { io = m.ReplayICMP(path) }); p != "" {
+			c.Fail("panic", "ICMP ack-replay scenario panicked: "+p, rp)
+			continue
+		}
+		if io.OpenErr != "" {
+			c.Note("ack-replay icmp-%s: session did not open (%s); not evaluated", path, io.OpenErr)
+			continue
+		}
+		if !io.KeysAgree {
+			c.Fail("key-mismatch-live-icmp-"+path, fmt.Sprintf("icmp %s path: the exit cannot open what the ingress sealed: the two ends do not hold the same key (%s)", path, io.Detail), rp)
+		}
+		a1, a2 := sortedKeys(io.KeysA1), sortedKeys(io.KeysA2)
+		same := len(a1) == len(a2)
+		for i := 0; same && i < len(a1); i++ {
+			same = a1[i] == a2[i]
+		}
+		if !same {
+			c.Fail("session-key-replaced-by-duplicate-ack-icmp-"+path, fmt.Sprintf("icmp %s path: a duplicated ICMP_OPEN_ACK replaced the ingress's session key (%d new derivations)", path, io.DerivedByReplay), rp)
+		}
+		c.Case("ack-replay/icmp-"+path, true, rp)
+		c.Count("ack-replay:icmp-" + path)
+	}
 	for _, o := range obs {
 		rp := replay{Part: "ack-replay", Kind: o.Kind}
 		if o.OpenErr != "" {
-			c.Note("ack-replay %s: tunnel did not open (%s); not evaluated", o.Kind, o.OpenErr)
+			c.Fail("live-open-failed-"+o.Kind, fmt.Sprintf("%s through the two-agent mesh failed: %s", o.Kind, o.OpenErr), rp)
 			continue
 		}
 		a1, a2 := sortedKeys(o.KeysA1), sortedKeys(o.KeysA2)
